@@ -16,6 +16,7 @@ import (
 	"errors"
 	"fmt"
 	"io"
+	"log/slog"
 	"math"
 	"net"
 	"net/http"
@@ -634,6 +635,145 @@ func (fx *vc20Fixture) vc20BasePorts(ilc *interfaceListenersConfig) (res *interf
 	return res
 }
 
+// vc20LogCapture is a log handler that keeps the records of level error.
+type vc20LogCapture struct {
+	mu   *sync.Mutex
+	errs *[]string
+}
+
+func (h vc20LogCapture) Enabled(_ context.Context, lvl slog.Level) (ok bool) {
+	return lvl >= slog.LevelError
+}
+
+func (h vc20LogCapture) Handle(_ context.Context, r slog.Record) (err error) {
+	h.mu.Lock()
+	defer h.mu.Unlock()
+
+	text := r.Message
+	r.Attrs(func(a slog.Attr) (cont bool) {
+		text += " " + a.String()
+
+		return true
+	})
+	*h.errs = append(*h.errs, text)
+
+	return nil
+}
+
+func (h vc20LogCapture) WithAttrs(_ []slog.Attr) (res slog.Handler) { return h }
+func (h vc20LogCapture) WithGroup(_ string) (res slog.Handler)      { return h }
+
+// vc20SignalNotifier hands the channel of a signal handler to the harness.
+type vc20SignalNotifier struct {
+	ch chan<- os.Signal
+}
+
+func (n *vc20SignalNotifier) Notify(c chan<- os.Signal, _ ...os.Signal) { n.ch = c }
+func (n *vc20SignalNotifier) Stop(_ chan<- os.Signal)                   {}
+
+// vc20ExerciseProfileDB runs builder.initProfileDB against the fake profiles
+// backend: with profiles enabled it creates the profile database and starts its
+// refresh worker with the configured backend.refresh_interval.  The worker is
+// left to tick, then shut down the way the process does it, by the signal
+// handler.  A panic that the worker's loop recovers is visible in the log the
+// harness supplies; the backend counts the refreshes.
+func (fx *vc20Fixture) vc20ExerciseProfileDB(ctx context.Context, o *vc20Outcome, c *configuration, b *builder) {
+	ivl := c.Backend.RefreshIvl.Duration
+	profiles := c.isProfilesEnabled()
+	if profiles && ivl > 0 && ivl < 10 {
+		o.classes = append(o.classes, "refresh-interval-below-10ns-with-profiles-enabled")
+	}
+
+	var logErrs []string
+	mu := &sync.Mutex{}
+	oldLogger := b.baseLogger
+	b.baseLogger = slog.New(vc20LogCapture{mu: mu, errs: &logErrs})
+	defer func() { b.baseLogger = oldLogger }()
+
+	notifier := &vc20SignalNotifier{}
+	b.sigHdlr = service.NewSignalHandler(&service.SignalHandlerConfig{
+		SignalNotifier:  notifier,
+		Logger:          slogutil.NewDiscardLogger(),
+		ShutdownTimeout: 3 * time.Second,
+	})
+
+	before := fx.profBackend.calls.Load()
+	ictx, cancel := context.WithTimeout(ctx, 3*time.Second)
+	defer cancel()
+
+	if !o.step("profiledb-init", func() (err error) { return b.initProfileDB(ictx) }) {
+		return
+	}
+
+	if !profiles {
+		o.classes = append(o.classes, "profiledb-disabled")
+
+		return
+	}
+
+	// Shut the worker down whatever happens: with a tiny interval it spins.
+	defer func() {
+		done := make(chan struct{})
+		go func() {
+			defer close(done)
+
+			_ = b.sigHdlr.Handle(ctx)
+		}()
+
+		notifier.ch <- os.Interrupt
+		select {
+		case <-done:
+		case <-time.After(5 * time.Second):
+			o.classes = append(o.classes, "profiledb-shutdown-slow")
+		}
+	}()
+
+	if fx.profBackend.calls.Load() == before {
+		o.fail("profiledb-init: the initial refresh did not reach the profiles backend")
+
+		return
+	}
+
+	// With an interval of up to a few milliseconds several ticks fit into a
+	// short wait; otherwise the worker has nothing to do yet, and a refresh
+	// is called directly, as a tick would do.
+	ticking := ivl <= 5*time.Millisecond
+	afterInit := fx.profBackend.calls.Load()
+	if ticking {
+		for range 300 {
+			if fx.profBackend.calls.Load() >= afterInit+3 {
+				break
+			}
+
+			time.Sleep(5 * time.Millisecond)
+		}
+	} else if refr := b.debugRefrs[debugIDProfileDB]; refr != nil {
+		o.step("profiledb-refresh", func() (err error) { return refr.Refresh(ictx) })
+	}
+
+	mu.Lock()
+	recovered := slices.Clone(logErrs)
+	mu.Unlock()
+
+	for _, e := range recovered {
+		if strings.Contains(e, "recovered from panic") {
+			o.fail("profile database refresh worker with backend.refresh_interval %s: its loop panicked and ended: %s", ivl, e)
+
+			return
+		}
+	}
+
+	switch got := fx.profBackend.calls.Load() - afterInit; {
+	case got >= 3 || (!ticking && got >= 1):
+		o.classes = append(o.classes, "profiledb-refresh-loop-alive")
+	default:
+		// No panic was logged, and a verdict from elapsed time alone is not
+		// drawn.
+		o.timeouts++
+		o.classes = append(o.classes, "profiledb-refresh-loop-inconclusive")
+	}
+}
+
 // vc20ExerciseAllowlist runs builder.initRateLimiter against the allowlist
 // source of the environment: a closed port (the backend or Consul is down), or
 // the fake rate-limit backend, which answers, fails, or answers first and fails
@@ -876,6 +1016,10 @@ func (fx *vc20Fixture) vc20Exercise(c *configuration) (o *vc20Outcome) {
 		fx.vc20ExerciseAllowlist(ctx, o, c, b)
 	}
 
+	if okGRPC && okSrvGrps && fx.profBackend != nil {
+		fx.vc20ExerciseProfileDB(ctx, o, c, b)
+	}
+
 	if okCheck && okTLS && !webSame {
 		o.step("web", func() (err error) {
 			webConf, err := c.Web.toInternal(ctx, envs, b.dnsCheck, errColl, b.tlsManager)
@@ -1093,7 +1237,12 @@ type vc20RealListener struct {
 // vc20ClientTimeout bounds every exchange of the real clients.  Running into
 // it decides nothing, so it only has to be long enough for a loopback exchange
 // on a busy machine.
-const vc20ClientTimeout = 1500 * time.Millisecond
+const vc20LongClientTimeout = 1500 * time.Millisecond
+
+// vc20ClientTimeout is the timeout in force.  It is shorter while a
+// configuration with tiny timeouts is exercised: its exchanges may fail, and
+// nothing is concluded from that.  The exercise is sequential.
+var vc20ClientTimeout = vc20LongClientTimeout
 
 // vc20DNSCryptPublicKey is the provider public key of the DNSCrypt
 // configuration of the distributed example.
@@ -1449,6 +1598,10 @@ func (o *vc20Outcome) vc20RealInterfaceListeners(
 	dc := c.DNS
 	must := vc20SaneTimeouts(c) && dc.ReadTimeout.Duration >= enough && dc.WriteTimeout.Duration >= enough &&
 		dc.TCPIdleTimeout.Duration >= enough && !vc20AccessBlocked(c, netip.MustParseAddr("127.0.0.1"))
+	vc20ClientTimeout = vc20LongClientTimeout
+	if !must {
+		vc20ClientTimeout = 250 * time.Millisecond
+	}
 
 	ports := map[uint16]struct{}{}
 	for _, bd := range srv.BindData() {
@@ -1541,6 +1694,10 @@ func (o *vc20Outcome) vc20RealListener(c *configuration, rl *vc20RealListener) {
 	dc := c.DNS
 	must := vc20SaneTimeouts(c) && dc.ReadTimeout.Duration >= enough && dc.WriteTimeout.Duration >= enough &&
 		dc.TCPIdleTimeout.Duration >= enough && !vc20AccessBlocked(c, netip.MustParseAddr("127.0.0.1"))
+	vc20ClientTimeout = vc20LongClientTimeout
+	if !must {
+		vc20ClientTimeout = 250 * time.Millisecond
+	}
 
 	start := time.Now()
 	var got int
